@@ -148,8 +148,40 @@ def hist : P String := do
       (s', s!"{m} {bstr b} {showReg k s'}" :: acc.2)) (Reg.fresh, [])
   pure (" ".intercalate (toString ops.length :: out.reverse))
 
+/-- one coupled model: `O` (postProcess returns False) | `P history names entries`; `none` = a selector does not resolve -/
+def cmodel : P (Option (CModel Float)) := do
+  let t ← tok
+  match t with
+  | "O" => pure (some .other)
+  | "P" => do
+      let d ← pdata; let ph ← lst tok; let el ← lst tok
+      let es ← entries ph el
+      pure (es.map (fun es => CModel.prec d es))
+  | _ => failure
+
+def showCModel : CModel Float → String
+  | .prec _ es => showEntries es
+  | .other => "0"
+
+/-- sc.coupled  clock(list) tf fuel k0 models(list)     — one `Coupler.solve` entered at row k0
+    → last row, stopped early, number of steps taken, per step: the flag every model returned (list order) and the
+      combined flag of `Coupler.postProcess`, then per model its latches -/
+def coupledV : P String := do
+  let ck ← flts; let tf ← flt; let fuel ← nat; let k0 ← nat
+  let ms ← lst cmodel
+  if ms.any (fun m => m.isNone) then pure "raise" else
+  let ms := ms.filterMap id
+  let ca := ck.toArray
+  let clock : Nat → Float := fun i => ca.getD i 0.0
+  let (m, stopped, ms') := coupledRun clock tf fuel k0 ms
+  let steps := ((List.range (m - k0)).foldl (fun (acc : List (CModel Float) × List String) i =>
+      let r := couplerPost (k0 + i + 1) acc.1
+      (r.1, s!"{" ".intercalate (r.2.1.map bstr)} {bstr r.2.2}" :: acc.2)) (ms, [])).2.reverse
+  pure (" ".intercalate ([toString m, bstr stopped, toString steps.length] ++ steps ++ ms'.map showCModel))
+
 def handle (verb : String) : Option (P String) :=
   match verb with
+  | "sc.coupled" => some coupledV
   | "sc.hist" => some hist
   | "sc.seq" => some seq
   | "sc.run" => some runV
